@@ -1,0 +1,42 @@
+//go:build verif
+
+package lib
+
+// Contracts for package lib, read by /verif/bin/govc (contract-based deductive
+// verification). This file is only compiled with -tags verif; it adds no
+// behaviour. The three variables below only force the generic instances of
+// Median that production code does not use to exist, so that each member of the
+// type set is verified.
+var (
+	_ = Median[uint32]
+	_ = Median[int64]
+	_ = Median[int32]
+)
+
+// sorted(input) is the ascending rearrangement of input (abstract sequence).
+// Even length: mean of the two middle values rounded away from zero, computed
+// in unbounded arithmetic (no overflow for any pair).
+
+//@ func Median[uint64](input) (r, err)
+//@ ensures [empty_iff_error] (len(input) == 0) <==> (err != nil)
+//@ ensures [odd_middle] err == nil && len(input) % 2 == 1 ==> r == sorted(input)[len(input)/2]
+//@ ensures [even_mean_away_from_zero] err == nil && len(input) % 2 == 0 ==> 2*r == sorted(input)[len(input)/2-1] + sorted(input)[len(input)/2] + (sorted(input)[len(input)/2-1] + sorted(input)[len(input)/2]) % 2
+//@ ensures [input_untouched] forall k in [0, len(input)) :: input[k] == old(input[k])
+
+//@ func Median[uint32](input) (r, err)
+//@ ensures [empty_iff_error] (len(input) == 0) <==> (err != nil)
+//@ ensures [odd_middle] err == nil && len(input) % 2 == 1 ==> r == sorted(input)[len(input)/2]
+//@ ensures [even_mean_away_from_zero] err == nil && len(input) % 2 == 0 ==> 2*r == sorted(input)[len(input)/2-1] + sorted(input)[len(input)/2] + (sorted(input)[len(input)/2-1] + sorted(input)[len(input)/2]) % 2
+//@ ensures [input_untouched] forall k in [0, len(input)) :: input[k] == old(input[k])
+
+//@ func Median[int64](input) (r, err)
+//@ ensures [empty_iff_error] (len(input) == 0) <==> (err != nil)
+//@ ensures [odd_middle] err == nil && len(input) % 2 == 1 ==> r == sorted(input)[len(input)/2]
+//@ ensures [even_mean_away_from_zero] err == nil && len(input) % 2 == 0 ==> 2*r == sorted(input)[len(input)/2-1] + sorted(input)[len(input)/2] + (sorted(input)[len(input)/2-1] + sorted(input)[len(input)/2]) % 2
+//@ ensures [input_untouched] forall k in [0, len(input)) :: input[k] == old(input[k])
+
+//@ func Median[int32](input) (r, err)
+//@ ensures [empty_iff_error] (len(input) == 0) <==> (err != nil)
+//@ ensures [odd_middle] err == nil && len(input) % 2 == 1 ==> r == sorted(input)[len(input)/2]
+//@ ensures [even_mean_away_from_zero] err == nil && len(input) % 2 == 0 ==> 2*r == sorted(input)[len(input)/2-1] + sorted(input)[len(input)/2] + (sorted(input)[len(input)/2-1] + sorted(input)[len(input)/2]) % 2
+//@ ensures [input_untouched] forall k in [0, len(input)) :: input[k] == old(input[k])
